@@ -62,8 +62,8 @@ def run(prop, tier, seed, replay=None):
     V.assumptions = [
         "coefficient-field operations (Modular<int32_t>, Modular<Integer>, QField<Rational>) are modelled as exact field arithmetic (Z/p, Q): their own correctness is C03/C10",
         "the threshold used by the model for the SQR_THRESHOLD dispatch is the KARA_THRESHOLD printed by the harness (equal in the source and in both builds); the theorems hold for every threshold >= 1, so a difference would not be observable",
-        "truncated and middle products (mul with Val/deg, midmul family), pow/powmod, div/mod/divmod (Newton inverse), modin, pdivmod/pmod, gcd (plain), lcm, invmod, interpolation, CRT and p-adic conversion are not modelled: they are decided per generated case by the reference arithmetic / the certificates of Spec/PolySpec.lean whose soundness is proved in Props/C08.lean (divmod_unique, gcd_certificate, invmod_certificate, lcm_certificate, chkDivmod_sound, chkBezout_sound, eqv_correct)",
-        "the extended gcd is modelled with the quotient function as a parameter (gcdext_loop_sound holds for any quotient; termination of the loop is not proved) and compared with the implementation using the reference quotient",
+        "the middle-product family (midmul, stdmidmul, karamidmul), powmod, modin (in-place long division), pdivmod/pmod, invmodunit, interpolation, CRT and p-adic conversion are not modelled: they are decided per generated case by the reference arithmetic / the certificates of Spec/PolySpec.lean whose soundness is proved in Props/C08.lean (divmod_unique, gcd_certificate, invmod_certificate, lcm_certificate, chkDivmod_sound, chkBezout_sound, eqv_correct)",
+        "the in-place call forms al_* of the scalar/polynomial overloads are checked against the same contract as the out-of-place forms (aliasing in general is C15)",
         "sdivmod/sxgcd of the specification only *find* certificates that are re-checked by multiplication; smod is used unchecked as the reference for powmod and invmodunit",
         "GFqDom coefficient fields and NewtonInterpGeom (geometric interpolation) are not exercised",
     ]
